@@ -260,87 +260,6 @@ func (e *Exec) strSlice(ss []string) Value {
 	return Slice{o: e.newObj("native"), v: v, ok: true}
 }
 
-func (e *Exec) sprintf(f Str, args Slice) Value {
-	if !f.Concrete() {
-		e.cut("unsupported-symbolic:Sprintf format")
-	}
-	symbolic := false
-	var na []interface{}
-	for _, a := range args.v {
-		it := a.(Iface)
-		switch v := it.v.(type) {
-		case Str:
-			if v.Concrete() {
-				na = append(na, v.s)
-			} else {
-				symbolic = true
-				na = append(na, v)
-			}
-		case *Term:
-			if !v.IsConst() {
-				symbolic = true
-				na = append(na, v)
-				continue
-			}
-			if v.F {
-				na = append(na, v.Float())
-			} else if v.W == 0 {
-				na = append(na, v.V == 1)
-			} else if isSigned(it.t) {
-				if b, ok := it.t.Underlying().(*types.Basic); ok && b.Kind() == types.Int32 {
-					na = append(na, rune(sx(v.W, v.V)))
-				} else {
-					na = append(na, sx(v.W, v.V))
-				}
-			} else {
-				na = append(na, v.V)
-			}
-		default:
-			na = append(na, fmt.Sprintf("<%T>", v))
-		}
-	}
-	if !symbolic {
-		return Str{s: fmt.Sprintf(f.s, na...)}
-	}
-	// symbolic arguments: only %s / %v of strings and %% are modelled; each verb consumes one argument
-	var out []*Term
-	ai := 0
-	for i := 0; i < len(f.s); i++ {
-		c := f.s[i]
-		if c != '%' {
-			out = append(out, Const(8, uint64(c)))
-			continue
-		}
-		i++
-		if i >= len(f.s) {
-			e.cut("unsupported-symbolic:Sprintf trailing %")
-		}
-		switch f.s[i] {
-		case '%':
-			out = append(out, Const(8, '%'))
-		case 's', 'v':
-			if ai >= len(na) {
-				e.cut("unsupported-symbolic:Sprintf missing arg")
-			}
-			switch v := na[ai].(type) {
-			case Str:
-				out = append(out, v.Bytes()...)
-			case string:
-				for k := 0; k < len(v); k++ {
-					out = append(out, Const(8, uint64(v[k])))
-				}
-			default:
-				return Str{s: "\x00OPAQUE\x00"}
-			}
-			ai++
-		default:
-			// any other verb with symbolic data: opaque (only safe for error messages)
-			return Str{s: "\x00OPAQUE\x00"}
-		}
-	}
-	return mkStr(out)
-}
-
 // assertTerm discharges one obligation: PC ∧ ¬c must be unsat.
 func (e *Exec) assertTerm(c *Term, what string) {
 	e.obligations++
